@@ -43,6 +43,10 @@ def state_at(events, addr):
     return cur
 
 
+# register rules that a CFI patch of irgen.CFI_PATCHES sets in front of its first instruction
+LEAD_RULES = {irgen.CFI_PATCHES[2]: ((40, "RegisterUndefined()"),)}
+
+
 class C08(IRProp):
     id = "C08"
     prop_file = "Properties/C08.v"
@@ -134,8 +138,11 @@ class C08(IRProp):
                                 break
                             continue
                         if own_cfi and got != ("outside",):
-                            # the patch may open with .cfi_remember_state: the depth of the state stack is not compared
-                            ok_ = any(w != ("outside",) and got[:3] == w[:3] for w in (want_in, nxt))
+                            # the patch may open with .cfi_remember_state: the depth of the state stack is not compared; directives in
+                            # front of the patch's first instruction (LEAD_RULES) are in effect from its first byte on
+                            lead = LEAD_RULES.get(case.mods[n][4], ())
+                            ok_ = any(w != ("outside",) and got[0] == w[0] and got[2] == w[2] and
+                                      dict(got[1]) == {**dict(w[1]), **dict(lead)} for w in (want_in, nxt))
                         else:
                             ok_ = got in (want_in, nxt)
                         if not ok_:
